@@ -1,5 +1,6 @@
 """Run session specs on the implementation and compare every verification with the Coq verifier model."""
 from lib.common import *
+import copy
 from lib import vmodel
 
 
@@ -14,11 +15,112 @@ def strip(spec):
     return clean(spec)
 
 
+EMBED_DEFAULT = "1"
+
+
+def embed_contexts(run, specs):
+    """Context embedding: for sessions that verify single (statement, proof, transcript) triples, a few of those triples are verified again
+    INSIDE batches of honest proofs — after a larger member, between a smaller and a larger one, before a seeded one, and (when cheap) beyond
+    the first internal chunk of 256.  The fillers are honest, so the triple's verdict (and recovered mask) must be what it is alone: a batch is
+    accepted iff every member is.  Returns (extended specs, embedding table)."""
+    import random as _random
+    from lib import gen as _gen
+    rng = _random.Random(f"embed:{run.seed}:{run.prop}")
+    out, table = [], []
+    for s in specs:
+        singles = [vi for vi, v in enumerate(s.get("verifies", []))
+                   if len(v.get("vmembers", [])) == 1 and all(k in v["vmembers"][0] for k in ("proof", "stmt", "ctx"))]
+        ok_shape = singles and s.get("group") in ("fm", "ristretto") and not s.get("_no_embed")
+        if ok_shape:
+            st0 = s["verifies"][singles[0]]["vmembers"][0]["stmt"]
+            bits, T, m = st0["bits"], st0["T"], len(st0["commit"])
+            ok_shape = bits * max(2, 2 * m) <= (256 if s.get("group") == "fm" else 64) and not any(k in st0 for k in ("h_scale", "gb_scale", "gb0_eq_cH", "gb_eq"))
+        if not ok_shape:
+            out.append(s)
+            table.append(None)
+            continue
+        s2 = copy.deepcopy(s)
+        old_n = len(s2["members"])
+        big = _gen.mk_member(rng, bits, max(2, 2 * m), cap=max(2, 2 * m), T=T, ctx={"label": "embed-big"})
+        small = _gen.mk_member(rng, bits, 1, cap=1, T=T, seed=True, ctx={"label": "embed-small"})
+        mid = _gen.mk_member(rng, bits, m, cap=2 * m, T=T, ctx={"label": "embed-mid"}, pkinds=["zero" if j % 2 else "rand" for j in range(m)])
+        fillers = [big, small, mid]
+        seen_ids = set()                     # vmember dicts may be shared between verifications (aliasing survives deepcopy)
+        for v in s2["verifies"]:
+            for x in v.get("vmembers", []):
+                if id(x) in seen_ids:
+                    continue
+                seen_ids.add(id(x))
+                if "proof" in x and x["proof"] >= old_n:
+                    x["proof"] += len(fillers)
+        for d in s2.get("derived", []):
+            if isinstance(d.get("from"), int) and d["from"] >= old_n:      # derived from an earlier derived proof
+                d["from"] += len(fillers)
+        s2["members"] = s2["members"] + fillers
+        fb, fs, fm_ = (_gen.vmember(big, old_n), _gen.vmember(small, old_n + 1), _gen.vmember(mid, old_n + 2))
+        emb = []
+        # only triples whose statement shares bit length, extension degree and (unaltered) generators with the fillers can sit in one batch with them
+        singles = [vi for vi in singles
+                   if s2["verifies"][vi]["vmembers"][0]["stmt"]["bits"] == bits and s2["verifies"][vi]["vmembers"][0]["stmt"]["T"] == T
+                   and not any(k in s2["verifies"][vi]["vmembers"][0]["stmt"] for k in ("h_scale", "gb_scale", "gb0_eq_cH", "gb_eq"))]
+        for vi in rng.sample(singles, min(3, len(singles))):
+            v = s2["verifies"][vi]
+            t = v["vmembers"][0]
+            for cname, before, after in (("after a larger member", [fb], []), ("between a seeded smaller member and a larger one", [fs], [fb]),
+                                         ("first, before members of other sizes", [], [fm_, fs])):
+                emb.append((len(s2["verifies"]), vi, len(before), cname))
+                s2["verifies"].append({"mode": v["mode"], "vmembers": before + [t] + after, "log": False})
+            if bits * m <= 4 and s.get("group") == "fm" and not emb_has_big(emb):
+                emb.append((len(s2["verifies"]), vi, 256, "at position 256 of a batch of 258 (second internal chunk)"))
+                s2["verifies"].append({"mode": v["mode"], "vmembers": [fs] * 256 + [t, fm_], "log": False})
+        out.append(s2)
+        table.append((len(s["verifies"]), emb))
+    return out, table
+
+
+def emb_has_big(emb):
+    return any(pos == 256 for (_, _, pos, _) in emb)
+
+
+def check_embeddings(run, s2, o, entry):
+    n0, emb = entry
+    for (ei, vi, pos, cname) in emb:
+        src, e = o["verifies"][vi], o["verifies"][ei]
+        if src["result"].startswith(("unavailable", "panic")) or e["result"].startswith("unavailable"):
+            continue
+        run.bump("context embeddings")
+        a, b = src["result"] == "ok", e["result"] == "ok"
+        rp = {"kind": "session", "spec": strip(s2), "verify": ei, "alone": vi, "context": cname}
+        if e["result"].startswith("panic"):
+            run.violation(f"verification panicked when the triple was verified {cname}: {e['result'][:160]}", rp)
+        elif a != b:
+            run.violation(f"the verdict on a triple changes when it is verified inside a batch of honest proofs ({cname}): alone {src['result'][:60]}, in the batch {e['result'][:60]}", rp)
+        elif a and (e.get("masks") or [None] * (pos + 1))[pos] != (src.get("masks") or [None])[0]:
+            run.violation(f"the recovered mask of a triple changes when it is verified inside a batch of honest proofs ({cname})", rp)
+
+
 def run_sessions(run, specs, oracle=None, relevant=0xFF, model_verify=True, jobs=8, name=None, max_report=6, extra_terms=None, prover_relevant=0xFF):
     """Executes `specs`; calls oracle(run, spec, obs) for the property's direct checks; evaluates the Coq verifier model on every
     FM verification and reports disagreements on the `relevant` code bits.  Returns the observations."""
     name = name or run.prop.lower()
+    embed = os.environ.get("VERIF_EMBED", EMBED_DEFAULT) != "0"
+    orig_specs = specs
+    if embed:
+        specs, emb_table = embed_contexts(run, specs)
     obs = run_harness(["session"], [strip(s) for s in specs], jobs=jobs)
+    if embed:
+        full_obs = obs
+        obs = []
+        for s0, s2, o, entry in zip(orig_specs, specs, full_obs, emb_table):
+            if entry is None:
+                obs.append(o)
+                continue
+            check_embeddings(run, s2, o, entry)
+            o2 = dict(o)
+            o2["verifies"] = o["verifies"][:entry[0]]
+            o2["members"] = o["members"][:len(s0["members"])]
+            obs.append(o2)
+        specs = orig_specs
     terms, meta, unknown_masks = [], [], set()
     for s, o in zip(specs, obs):
         if oracle:
